@@ -251,6 +251,25 @@ def i_ite(eng, st, fr, fn, args, ins):
     _ret(st, ins, eng.merge(c, a, b, fn['results'][0]))
 
 
+def i_allocs(eng, st, fr, fn, args, ins):
+    clo = args[0]
+    if not isinstance(clo, Closure):
+        raise Unsupported('vf.Allocs argument')
+    st.ghost['allocs'] = []
+
+    def on_return(eng, st, fr2, v):
+        g = st.ghost.get('allocs') or []
+        st.ghost['allocs'] = None
+        st.ghost['last_allocs'] = list(g)
+        if g:
+            eng.cur_result.setdefault('alloc_sites', [])
+            for a in g:
+                if a not in eng.cur_result['alloc_sites'] and len(eng.cur_result['alloc_sites']) < 20:
+                    eng.cur_result['alloc_sites'].append(a)
+        st.frames[-1].regs[ins['reg']] = len(g)
+    eng.push_call(st, clo, [], ret_to=ins['reg'], on_return=on_return)
+
+
 def i_noalloc_begin(eng, st, fr, fn, args, ins):
     st.ghost['allocs'] = []
 
@@ -284,6 +303,7 @@ TABLE = {
     P + 'All': i_all,
     P + 'Implies': i_implies,
     P + 'Ite': i_ite,
+    P + 'Allocs': i_allocs,
     P + 'AllocsBegin': i_noalloc_begin,
     P + 'AllocsEnd': i_noalloc_end,
 }
